@@ -92,6 +92,17 @@ AddFunc(s, sig, refs) == [s EXCEPT !.funcs = Append(@, [live |-> TRUE, imported 
 AddImportFunc(s, field, sig) ==
   [s EXCEPT !.funcs = Append(@, [live |-> TRUE, imported |-> TRUE, sig |-> sig, refs |-> <<>>, name |-> ""]),
             !.imports = Append(@, [module |-> "env", field |-> field, kind |-> "func", target |-> Len(s.funcs)])]
+\* imports of the other kinds (Module::add_import_table / add_import_memory / add_import_global): a new entity of that
+\* kind plus its import record; nothing else moves (indices are only assigned at emission, imports first)
+AddImportTable(s, field, ety) ==
+  [s EXCEPT !.tables = Append(@, [live |-> TRUE, imported |-> TRUE, ty |-> ety \o " min=1 max=none t64=false shared=false"]),
+            !.imports = Append(@, [module |-> "env", field |-> field, kind |-> "table", target |-> Len(s.tables)])]
+AddImportMemory(s, field) ==
+  [s EXCEPT !.memories = Append(@, [live |-> TRUE, imported |-> TRUE, ty |-> "min=1 max=none m64=false shared=false pagelog2=none"]),
+            !.imports = Append(@, [module |-> "env", field |-> field, kind |-> "memory", target |-> Len(s.memories)])]
+AddImportGlobal(s, field) ==
+  [s EXCEPT !.globals = Append(@, [live |-> TRUE, imported |-> TRUE, ty |-> "i32 mut=false shared=false", init |-> NoExpr]),
+            !.imports = Append(@, [module |-> "env", field |-> field, kind |-> "global", target |-> Len(s.globals)])]
 AddGlobal(s, mutable, value) ==
   [s EXCEPT !.globals = Append(@, [live |-> TRUE, imported |-> FALSE,
        ty |-> "i32 mut=" \o (IF mutable THEN "true" ELSE "false") \o " shared=false",
